@@ -175,7 +175,7 @@ def _run_search(mod, phase, shard, nshards, seed, stats, tier):
     n = max(1, phase.examples // nshards)
     excluded = set()
     shrink_budget = 45.0 if tier == 'quick' else 240.0
-    for _round in range(6):
+    for _round in range(3 if tier == 'quick' else 6):
         state = {'fail': None, 't0': None}
 
         def body(case):
